@@ -52,6 +52,8 @@ def setup(J):
         for k in (0, 1, 2, 3):
             jobs.append(comp(f"concatenator-k{k}", tier, {"comp": "concatenator", "k": k, "two": 0}))
             jobs.append(comp(f"concatenator-k{k}-two", tier, {"comp": "concatenator", "k": k, "two": 1}))
+            if k in (1, 2):
+                jobs.append(comp(f"concatenator-k{k}-over-longer-old-output", tier, {"comp": "concatenator", "k": k, "two": 0, "stale": 1}))
             jobs.append(comp(f"sources-k{k}", tier, {"comp": "sources", "k": k}, mode="delay", delay=1))
             if k < 3:
                 jobs.append(comp(f"sources-k{k}-blank-lines", tier, {"comp": "sources", "k": k, "blank": 1}, mode="delay", delay=0 if q else 1))
